@@ -5,7 +5,11 @@ from simulaqron.toolbox.manage_nodes import NetworksConfigConstructor
 
 
 def check_config_files():
-    if not os.path.exists(simulaqron_settings.network_config_file):
+    network_config_file = simulaqron_settings.network_config_file
+    # None is a legal value (no network config, see NetQASMFactory): nothing to check or create
+    if network_config_file is None:
+        return
+    if not os.path.exists(network_config_file):
         _create_default_network_config()
 
 
